@@ -406,7 +406,70 @@ def rule_split(ctx: Ctx, prog: Program) -> None:
                    "consecutive parts must be adjacent (next minimum = this maximum + 1): otherwise parts overlap or leave a gap")
                 _v(ctx, fn, first_ok, "first part starts at the domain minimum", e, "the first part must start at the minimum of the split domain")
     ctx.floor("R-SPLIT:loops", n_loops, 1)
-    ctx.assume("the last part ends at the domain maximum: arithmetic identity k*(s//k) + s%k = s, not a shape (declared undecided)")
+    # (vi) the parts cover the domain exactly: sizes are q + 1 for the first r parts and q for the others, q = s // k, r = s % k.
+    # Lemma (arithmetic, proved once by hand): sum_{i<k} (q + [i < r]) = k*q + r = s for 0 <= r < k.  The rule recognises the two sizes and
+    # the threshold of the conditional; an off-by-constant threshold is a definite violation, an unrecognised distribution is undecided.
+    decided = False
+    for r in res:
+        for l in [l for l in _all_loops(r.state.trace) if l.kind == "for"]:
+            rv = l.iter_value
+            if rv.__class__.__name__ != "RangeVal" or not (rv.start == ZERO):
+                continue
+            Kp = rv.stop
+            sz = hi - lo + ONE
+            sizes = []
+            for bp in l.paths:
+                pm = _part_bounds(it, bp)
+                if pm is None:
+                    sizes = []
+                    break
+                sizes.append((bp, pm[1] - pm[0] + ONE))
+            if len(sizes) < 2:
+                continue
+            q = Aff.atom(("floordiv", sz, Kp))
+            rr = Aff.atom(("mod", sz, Kp))
+            consts = [(bp, (sv - q)) for bp, sv in sizes]
+            if not all(c.is_const() for _, c in consts):
+                continue
+            big = [bp for bp, c in consts if c.c == 1]
+            small = [bp for bp, c in consts if c.c == 0]
+            if not big or not small or len(big) + len(small) != len(consts):
+                continue
+            idx = l.index
+            for d in (0, 1, -1, 2, -2):
+                okb = all(bp.state.facts.decide(cmp_cond("<=", idx, rr.addc(d - 1))) is True for bp in big)
+                oks = all(bp.state.facts.decide(cmp_cond(">=", idx, rr.addc(d))) is True for bp in small)
+                if okb and oks:
+                    decided = True
+                    if d == 0:
+                        ctx.ok("R-SPLIT", "parts cover the domain exactly: size s//k + 1 for the first s % k parts, s//k for the others",
+                               sample={"q": show_val(q), "r": show_val(rr), "lemma": "sum_{i<k}(q + [i<r]) = k*q + r = s"})
+                    else:
+                        ctx.violation("R-SPLIT", fn.path, "Problem.split", "covers-domain", f"{fn.path}:{getattr(l.node, 'lineno', 0)}",
+                                      f"the remainder of the division is spread over s % k {'+' if d > 0 else '-'} {abs(d)} parts instead of s % k: the parts "
+                                      f"cover s {'+' if d > 0 else '-'} {abs(d)} values, so the last part ends {'beyond' if d > 0 else 'before'} the maximum of the split domain "
+                                      "(values outside the domain are manufactured / solutions are lost)")
+                    break
+    if not decided:
+        ctx.undecided_site("R-SPLIT", "covers-domain", "the distribution of sizes over the parts is not of the recognised form q+[i<r]: 'the last part ends at the domain maximum' is not decided")
+
+
+def _part_bounds(it, bp):
+    """[min, max] stored into the copy's domain list on this body path, or None."""
+    for e in bp.events:
+        if e.kind == "store" and e.root and e.root.endswith(".shr_domains_lst") and not e.root.startswith("self."):
+            val = e.value
+            if isinstance(val, Tup) and len(val.items) == 2:
+                return [it.scalar(bp.state, x) for x in val.items]
+            node = e.node.value if isinstance(e.node, ast.Assign) else None
+            if isinstance(node, (ast.List, ast.Tuple)) and len(node.elts) == 2:
+                items = []
+                for el in node.elts:
+                    if isinstance(el, ast.Name) and el.id in bp.state.env:
+                        items.append(it.scalar(bp.state, bp.state.env[el.id]))
+                if len(items) == 2:
+                    return items
+    return None
 
 
 def _ret_line_of(r) -> int:
